@@ -52,6 +52,8 @@ MCInit == \/ \E s \in Strs : InitWith([op |-> "pct", in |-> s])
           \* C14: the response head and the cancellation race, the response wins
           \/ \E p \in {"connect", "grpc", "grpcweb"}, k \in {"unary", "client", "server", "bidi"}, w \in {0, 30} :
                 InitWith([op |-> "late_response", proto |-> p, used |-> k, d |-> w])
+          \* C14: a Receive that fails for a reason of its own while the handler is waiting for the client
+          \/ \E p \in {"connect", "grpc", "grpcweb"} : InitWith([op |-> "recvfail_live", proto |-> p])
           \* C11: error metadata when the error payload exceeds the client's read limit
           \/ \E p \in {"connect", "grpc", "grpcweb"} : InitWith([op |-> "errmeta_limit", proto |-> p])
           \* C10: a stream created under a deadline and first used later
